@@ -134,6 +134,15 @@ def sink_rule(repo, res, ty, rule="SINK"):
                 seq[k] = seq.get(k, 0) + 1
                 key = f"{rule}:{fn.qname}:{what}" + (f"#{seq[k]}" if seq[k] > 1 else "")
                 loc = f"{fn.file}:{s.node['l']}"
+                # a string handed in from outside the module (a name for the graph, a title) is text of unknown origin: a command name
+                # may hold `-` or `.`, which no bare DOT identifier may; it needs the encoder like any other text (parameters of private
+                # functions are followed to their callers in the module by the taint analysis below)
+                pr = A.resolve(e, env) if e is not None else ("none",)
+                while pr[0] in ("ref", "deref") or (pr[0] == "mcall" and pr[1] in ("as_str", "as_ref", "to_string", "clone", "to_owned", "borrow", "deref")):
+                    pr = pr[1] if pr[0] != "mcall" else pr[2]
+                if pr[0] == "param" and str(fn.node.get("vis", "")).startswith("pub") and isinstance(pr[1], int) and pr[1] < len(fn.params) and re.search(r"\b(str|String|Ustr|Cow)\b", str(fn.params[pr[1]].get("ty", ""))):
+                    res.bad(rule, key, f"the string parameter `{fn.params[pr[1]]['name']}: {fn.params[pr[1]].get('ty')}` reaches `{s.template.strip()[:60]}` without {ENCODER}: text from the caller (a command name may hold `-`, `.`, a quote) is written into the file as DOT syntax", loc)
+                    continue
                 raw = sorted(set(enc.raw(fn, e, env)))
                 if raw:
                     res.bad(rule, key, f"grammar text reaches `{s.template.strip()[:60]}` without {ENCODER}: {raw[:3]} -- a quote or backslash in it breaks the file", loc)
